@@ -24,10 +24,18 @@ def main(chk):
     b1.replay(chk, units, keyfn, sample=1500 if quick else 12000, seed=chk.seed, label='g')
     ru = termgen.random_join_units(rnd, 400 if quick else 5000)
     lu, lo, _ = b1.validate(chk, ru, keyfn)
+    # `apply a op b` in the body of a join (growth: JoinApply in VTLOperators); the shapes for which the engine has known
+    # findings are generated apart, so that the plain shapes are judged on their own
+    n = 60 if quick else 800
+    au = termgen.random_apply_units(rnd, n) + termgen.random_apply_units(rnd, n // 4, attrs=True) + \
+        termgen.random_apply_units(rnd, n // 4, three=True) + termgen.random_apply_units(rnd, n // 4, cmp_ops=True)
+    for j, u in enumerate(au):
+        u['id'] = 'ap%d' % j
+    b1.validate(chk, au, lambda u: 'join apply [%s]' % u['applyclass'], pack=1)
     b1.binding_demo(chk, lu, lo, c01.corrupt)
     chk.cov['rule'] = ('B1: TLC (GenJoins) enumerates inner / left / full / cross joins of A, B (same identifiers, clashing Me_1) and C (nested identifier set) over EVERY subset of the key space '
                        'per operand (every partial key-overlap pattern), with and without aliases, using, and bodies that resolve the clash (drop / keep / rename), filter on either side, calc '
                        'over both sides, aggr; thorough adds three-operand joins; a seeded sample of the transitions is replayed into run(); B2: random joins of 2-3 random datasets '
-                       '(equal / nested identifier sets, operands in any order for inner joins, 0-8 datapoints) validated by VTLOperators_Trace. distinct = distinct (term, result)')
+                       '(equal / nested identifier sets, operands in any order for inner joins, 0-8 datapoints) validated by VTLOperators_Trace; joins whose body ends with `apply a op b` (alone, after filter, before keep / rename, with non-homonymous measures, attributes, three operands, comparison operators). distinct = distinct (term, result)')
     chk.assumptions += ['identifier sets are equal or nested (the engine rejects other shapes at semantic analysis); using names the common identifiers',
-                        'apply and joins over expressions with viral attributes are not modelled here (viral attributes: C28)']
+                        'joins over expressions with viral attributes are not modelled here (viral attributes: C28)']
